@@ -28,6 +28,8 @@ Expression trees (tuples, concrete per obligation)
                                    repl = 'E' (the symbolic string e, via @[E]@) or a literal
     ('filter', L)  ('grep', rx)
     ('seq', T, T, ...)             T | T | ...
+    ('X', i)                       reference to the text-transformer symbol X<i>: a transformer of a class unknown
+                                   to exactly_lib that appends the symbolic character marks[i] to the text
     ('ref', NAME, T)               reference to the text-transformer symbol NAME, which is defined as T
                                    (def text-transformer NAME = T)
     ('attach', T, T, ...)          (not syntax) the transformers that `-transformed-by` options attach, one after
@@ -284,11 +286,12 @@ def ref_replace_in(rx: str, repl: str, s: str, lit_of_symbol: str = '') -> str:
 class Env:
     """The symbolic operands of an expression."""
 
-    def __init__(self, e: str = '', k0: int = 0, k1: int = 0, u: Sequence[bool] = ()):
+    def __init__(self, e: str = '', k0: int = 0, k1: int = 0, u: Sequence[bool] = (), marks: str = ''):
         self.e = e
         self.k0 = k0
         self.k1 = k1
         self.u = tuple(u)
+        self.marks = marks
 
 
 def ref_line_matcher(t, n: int, contents: str, env: Env) -> bool:
@@ -404,6 +407,8 @@ def ref_transformer(t, s: str, env: Env) -> str:
         return s
     if k == 'ref':
         return ref_transformer(t[2], s, env)
+    if k == 'X':
+        return s + env.marks[t[1]]
     raise ValueError(t)
 
 
@@ -440,6 +445,8 @@ def instantiate(shape, leaves):
     """shape: a transformer tree whose leaves are position numbers -> the tree with leaves[i] at position i"""
     if isinstance(shape, int):
         return leaves[shape]
+    if shape[0] == 'X':
+        return shape
     if shape[0] == 'ref':
         return ('ref', shape[1], instantiate(shape[2], leaves))
     return (shape[0],) + tuple(instantiate(x, leaves) for x in shape[1:])
@@ -526,6 +533,8 @@ def render_transformer(t, simple: bool = False) -> str:
         return '( ' + r + ' )' if simple else r
     if k == 'ref':
         return t[1]
+    if k == 'X':
+        return 'X%d' % t[1]
     if k == 'attach' or k == 'attach-ddv':
         # not parsed as a whole: each operand is parsed on its own
         return ' '.join('-transformed-by ' + render_transformer(x, True) for x in t[1:])
@@ -608,6 +617,7 @@ def symbols(env: Env, log: Optional[List] = None, tree=None):
     ('ref', NAME, T) of `tree`, NAME = what the REAL parser makes of the concrete syntax of T (as
     `def text-transformer NAME = T` does)."""
     from vsym import xly
+    from exactly_lib.impls.types.string_transformer import sdvs as string_transformer_sdvs
     from exactly_lib.symbol.sdv_structure import SymbolContainer
     from exactly_lib.symbol.value_type import ValueType
     u = env.u
@@ -621,6 +631,10 @@ def symbols(env: Env, log: Optional[List] = None, tree=None):
                                 ValueType.LINE_MATCHER),
     }
     if tree is not None:
+        for i in range(len(env.marks)):
+            entries['X%d' % i] = SymbolContainer(
+                string_transformer_sdvs.StringTransformerSdvConstant(stub_appender('X%d' % i, env.marks[i])),
+                ValueType.STRING_TRANSFORMER, None)
         for name, definition in symbol_definitions(tree).items():
             entries[name] = SymbolContainer(parse_transformer_cached(definition), ValueType.STRING_TRANSFORMER, None)
     return xly.symbol_table(entries)
@@ -787,6 +801,26 @@ def stub_string_source(text: str, ext_deps: bool, log: List):
             return self._c
 
     return _Source()
+
+
+def stub_appender(name: str, mark: str):
+    """A StringTransformer of a class unknown to exactly_lib (public base class only; it does not say that it is
+    the identity transformer - the default of the base class): its output is its input followed by `mark`."""
+    from exactly_lib.type_val_prims.string_transformer import StringTransformer
+    from exactly_lib.util.description_tree import renderers
+
+    class _Appender(StringTransformer):
+        @property
+        def name(self) -> str:
+            return name
+
+        def structure(self):
+            return renderers.header_only(name)
+
+        def transform(self, model):
+            return text_model(model.contents().as_str + mark)
+
+    return _Appender()
 
 
 class StubPattern:
